@@ -82,7 +82,7 @@ Inductive frame :=
 | FIncW105 (o : nat) (cnt : Z)
 | FIncW106 (o : nat)
 | FIsND108 (o : nat) (k : cont)              (* is_not_destructed *)
-| FIsND109 (o : nat) (old : Z) (k : cont)
+| FIsND109 (o : nat) (old r : Z) (k : cont)
 | FLoad121 (c : Z) (d : nat)                 (* AtomicRc::load *)
 | FSwap122 (c : Z) (new : link) (d : option nat)     (* store (d = None) / swap: hook before with_timestamp *)
 | FSwap120 (c : Z) (new : link) (d : option nat)     (* with_timestamp, then the swap *)
@@ -705,25 +705,30 @@ Definition micro (s : state) (t : nat) (rec : list Z) : option (state * list Z) 
           | None => ret (set_err s 5) x k []
           | Some ob => ret (seto s o (with_word ob (fadd (word ob) WEAK_COUNT))) x k [106; zo o; 0]
           end
-      (* ---- is_not_destructed *)
+      (* ---- is_not_destructed (with the stamp of the D5 repair) *)
       | FIsND108 o c =>
-          match geto s o with
-          | None => ret (set_err s 5) x k []
+          let r := oracle_epoch s rec 1108 in
+          let s1 := see_epoch s r in
+          match geto s1 o with
+          | None => ret (set_err s1 5) x k []
           | Some ob =>
               let w := word ob in
-              if negb (destructed w) && (strong w =? 0) then ret s x (FIsND109 o w c :: k) [108; zo o; 0]
-              else ret s x (FRet c (negb (destructed w)) :: k) [108; zo o; 0]
+              if destructed w then ret s1 x (FRet c false :: k) [108; zo o; 0; 1108; zo o; G s1]
+              else ret s1 x (FIsND109 o w (G s1) c :: k) [108; zo o; 0; 1108; zo o; G s1]
           end
-      | FIsND109 o old c =>
+      | FIsND109 o old r c =>
           match geto s o with
           | None => ret (set_err s 5) x k []
           | Some ob =>
               if word ob =? old then
-                ret (seto s o (with_tok (with_word ob (add_strong old 1)) true)) x (FRet c true :: k) [109; zo o; old]
+                let new := if strong old =? 0 then add_strong old 1 else old in
+                let ob' := {| word := with_epoch new r; dropped := dropped ob; freed := freed ob;
+                              tok := if strong old =? 0 then true else tok ob; links := links ob |} in
+                ret (seto s o ob') x (FRet c true :: k) [109; zo o; old]
               else
                 let w := word ob in
-                if negb (destructed w) && (strong w =? 0) then ret s x (FIsND109 o w c :: k) [109; zo o; old]
-                else ret s x (FRet c (negb (destructed w)) :: k) [109; zo o; old]
+                if destructed w then ret s x (FRet c false :: k) [109; zo o; old]
+                else ret s x (FIsND109 o w r c :: k) [109; zo o; old]
           end
       (* ---- AtomicRc cells and link fields *)
       | FLoad121 c d =>
